@@ -262,7 +262,7 @@ FAULT_KINDS = {
     "recv": ["timeout", "reset", "eof", "eintr"],
     "close": ["oserror", "runtime"],
 }
-REPLY_FAULTS = ["error", "client_error", "server_error", "garbage", "badvalue", "foreign", "two_line_error"]
+REPLY_FAULTS = ["error", "client_error", "server_error", "garbage", "badvalue", "foreign", "two_line_error", "surplus"]
 INTERRUPT_KINDS = ["kbd", "sysexit", "gevent"]
 
 
